@@ -230,7 +230,11 @@ func c16Finalise(c *fw.Ctx, i int) {
 		var n int
 		cls := ""
 		forceJoin := -1
-		switch r.Intn(8) {
+		endClass := r.Intn(8)
+		if i%4 == 0 && cyc == 0 {
+			endClass = 7 // (http-ts gop_num is 0 in these cases: a mid-GOP joiner has nothing to start from)
+		}
+		switch endClass {
 		case 7:
 			// the input ends a few messages after the mid-GOP joiners attached, before the next key frame:
 			// they are still waiting for one when the successor arrives
